@@ -124,6 +124,28 @@ func TestC11(t *testing.T) {
 				}
 			}
 		}
+		// two messages of more than 16 classes each, overlapping, in different orders (class tables that
+		// outgrow the short instance tags)
+		if rapid.IntRange(0, 3).Draw(rt, "withManyClasses") == 0 {
+			for k := 0; k < 2; k++ {
+				start := rapid.IntRange(0, 12).Draw(rt, "classesFrom")
+				cnt := rapid.IntRange(17, 24).Draw(rt, "classCount")
+				idx := make([]int, cnt)
+				for i := range idx {
+					idx[i] = start + i
+				}
+				idx = rapid.Permutation(idx).Draw(rt, "classOrder")
+				l := make([]interface{}, 0, cnt+2)
+				for _, i := range idx {
+					p := reflect.New(zoo.QTypes[i])
+					p.Elem().Field(0).SetInt(int64(i))
+					l = append(l, p.Interface())
+				}
+				l = append(l, l[0], l[cnt/2])
+				vals = append(vals, l)
+				descs = append(descs, fmt.Sprintf("special %d classes from Q%03d in order %v", cnt, start, idx))
+			}
+		}
 		if len(vals) < 2 {
 			rt.Skip("too few values")
 		}
